@@ -277,7 +277,9 @@ func check(c Case) error {
 	if c.Shared {
 		// one builder for all Files: nodes with the same Ref are the same Code value in every File
 		jobs := fresh(false)
-		b := &recipe.Builder{}
+		// (built under the form policy: literals through LitFunc, lists through ...Func callbacks — user code
+		// that runs once, when the shared value is built, whatever number of Files render it later)
+		b := &recipe.Builder{Forms: recipe.Seeded(uint64(c.Nonce)*2 + 1)}
 		files := make([]*jen.File, n)
 		for i, j := range jobs {
 			files[i] = b.File(j)
